@@ -135,6 +135,9 @@ def skel_src(s, ind, cn, rn):
 
 
 DYNAMIC_TYPE_ERROR = "type-error"
+# where the function whose return paths are analysed is written: a function value, a class method, a closure returned by a factory,
+# a function nested in a void function
+RET_FORMS = ["fn", "method", "closure", "nested-in-void"]
 
 # (d) catalogue of boundary cases of the typing rules: values that reach a typed position through an element pointer,
 # an optional box, a fixed-shape list, an alias, Self ... ; each entry: (name, body lines)
@@ -202,6 +205,32 @@ for _sn, _lit in _FX_SHAPES.items():
         for _i in range(_n):
             _obs += [f"print typeof fx[{_i}]", f"print fx[{_i}]"]
         CATALOGUE[f"fixed-{_sn}-method-{_cn}"] = [f"const fx = {_lit}"] + _call.split("\n") + _obs
+
+# chained indexing through containers of different kinds: every (outer, inner) pair of {open list, map, str} x {read, store, op-assignment} x
+# {literal, variable} indices; the instruction chosen for each step of `c[i][j]` must fit the container that step really indexes
+_CH_DECL = {
+    ("map", "list"): ('cc = map[str, [int...]] {"a": [1, 2, 3], "b": [4]}', '"a"', "1", "k1 = \"a\"", "k2 = 1"),
+    ("list", "map"): ('cc: [map[str, int]...] = [map[str, int] {"x": 7}, map[str, int] {"x": 9}]', "1", '"x"', "k1 = 1", 'k2 = "x"'),
+    ("map", "str"): ('cc = map[int, str] {1: "hello"}', "1", "1", "k1 = 1", "k2 = 1"),
+    ("list", "str"): ('cc: [str...] = ["hello", "abc"]', "1", "2", "k1 = 1", "k2 = 2"),
+    ("list", "list"): ("cc: [[int...]...] = [[1, 2], [3, 4, 5]]", "1", "2", "k1 = 1", "k2 = 2"),
+    ("map", "map"): ('cc = map[str, map[str, int]] {"o": map[str, int] {"i": 5}}', '"o"', '"i"', 'k1 = "o"', 'k2 = "i"'),
+    ("map-int", "list"): ("cc = map[int, [int...]] {0: [1, 2, 3], 1: [4]}", "0", "1", "k1 = 0", "k2 = 1"),
+    ("list", "map-int"): ("cc: [map[int, int]...] = [map[int, int] {0: 7}, map[int, int] {1: 9}]", "1", "1", "k1 = 1", "k2 = 1"),
+}
+for (_o, _i), (_decl, _a, _b, _va, _vb) in _CH_DECL.items():
+    for _form, (_x, _y, _pre) in {"lit": (_a, _b, []), "var": ("k1", "k2", [_va, _vb]), "mixed": (_a, "k2", [_vb])}.items():
+        _e = f"cc[{_x}][{_y}]"
+        CATALOGUE[f"chain-{_o}-of-{_i}-read-{_form}"] = [_decl] + _pre + [f"print typeof {_e}", f"print {_e}"]
+        CATALOGUE[f"chain-{_o}-of-{_i}-operand-{_form}"] = [_decl] + _pre + [f"w = {_e}", "print typeof w", "print w", f"print typeof [{_e}]", f"print [{_e}]"]
+        if _i != "str":
+            CATALOGUE[f"chain-{_o}-of-{_i}-store-{_form}"] = [_decl] + _pre + [f"{_e} = 50", f"print typeof {_e}", f"print {_e}", "print typeof cc", "print cc"]
+            CATALOGUE[f"chain-{_o}-of-{_i}-opassign-{_form}"] = [_decl] + _pre + [f"{_e} += 50", f"print typeof {_e}", f"print {_e}", "print typeof cc", "print cc"]
+# a three-step chain that changes kind twice
+CATALOGUE["chain-list-of-map-of-list"] = ['c3: [map[str, [int...]]...] = [map[str, [int...]] {"a": [1, 2]}]', 'print typeof c3[0]["a"][1]', 'print c3[0]["a"][1]',
+                                          'c3[0]["a"][1] = 8', 'print typeof c3[0]["a"][1]', 'print c3[0]["a"][1]']
+CATALOGUE["chain-map-of-list-of-map"] = ['c4 = map[str, [map[str, int]...]] {"a": [map[str, int] {"x": 3}]}', 'print typeof c4["a"][0]["x"]', 'print c4["a"][0]["x"]']
+
 
 # consumer positions x carriers: every syntactic position that consumes a value (the catalogue of C07's capture sites) fed with an
 # operand that reaches it through a container - a list element (variable / literal index), an object field, an element of a nested
@@ -300,6 +329,8 @@ class C02(Check):
             "str?, function, class, alias); (b) compatibility: every (expected type, supplied type) pair x 8 typed positions (annotated "
             "initialiser, re-assignment, argument, return value, pushed list element, map value, field assignment, `or` fallback); "
             "(c) return-path analysis: every function-body skeleton of depth <= 2 over {if, if/else, else-if, while, from} with return / "
+            "no-return leaves, written as a function value, a class method, a closure returned by a factory and a function nested in a void function; "
+            ""
             "no-return leaves; every accepted skeleton is called with all condition vectors and its result stored and printed; (d) a catalogue "
             "of boundary cases (values reaching a typed position through an element / field pointer, a boxed optional, a fixed-shape list, "
             "unpacking, an alias, Self); (e) depth-2 operator trees (x op1 y) op2 z and z op2 (x op1 y) over 6 typed variables of the four numeric kinds "
@@ -332,7 +363,7 @@ class C02(Check):
         u = [("un", op, t1) for op in UNARY for t1 in ts]
         b = [("compat", pos, t1, t2) for pos in ("init", "reassign", "arg", "ret", "push", "mapval", "field", "or")
              for t1 in ts for t2 in ts]
-        c1 = [("ret", i) for i in range(len(skeletons(1)))]
+        c1 = [("ret", i, form) for form in RET_FORMS for i in range(len(skeletons(1)))]
         d = [("cat", name) for name in CATALOGUE]
         tr = self.tree_cases()
         ls = [("Ld-catalogue", d), ("La-unary", u), ("La-operator-table", a), ("La2-operator-table-inside-a-function", [c + ("@fn",) for c in u + a]),
@@ -342,7 +373,7 @@ class C02(Check):
               ("Le-depth2-operator-trees-typeof-vs-kind" + ("-every-11th" if tier == "quick" else ""), tr[::11] if tier == "quick" else tr)]
         ls.append(("Lx-consumer-positions-x-carriers", [("cons", st, car, host) for st in consumer_sites() for car in (CONSUMER_CARRIERS if not st.startswith("snap-") else ["variable"])
                                                               for host in ("closure", "fn")]))
-        c2 = [("ret2", i) for i, s in enumerate(skeletons(2)) if count_conds(s) <= 4]
+        c2 = [("ret2", i, form) for form in RET_FORMS for i, s in enumerate(skeletons(2)) if count_conds(s) <= 4]
         if tier == "quick":
             c2 = c2[::9]
             ls.append(("Lc-return-paths-depth2-every-9th", c2))
@@ -419,10 +450,30 @@ class C02(Check):
             n = count_conds(sk)
             cn, rn = [0], [0]
             params = ", ".join(f"c{i + 1}: bool" for i in range(n))
-            body = skel_src(sk, 1, cn, rn)
-            s = f"f = fn({params}) -> int {{\n\tacc = 0\n{body}}}\n"
+            form = case[2] if len(case) > 2 else "fn"
+            callee = "f"
+            if form == "fn":
+                body = skel_src(sk, 1, cn, rn)
+                s = f"f = fn({params}) -> int {{\n\tacc = 0\n{body}}}\n"
+            elif form == "method":
+                body = skel_src(sk, 2, cn, rn)
+                sp = "self" + (", " + params if params else "")
+                s = f"class RK {{\n\tconstructor(self) {{}}\n\tfn f({sp}) -> int {{\n\t\tacc = 0\n{body}\t}}\n}}\nrk = RK()\n"
+                callee = "rk.f"
+            elif form == "closure":
+                body = skel_src(sk, 2, cn, rn)
+                ft = "fn(" + ", ".join("bool" for _ in range(n)) + ") -> int"
+                s = f"mk = fn() -> {ft} {{\n\tbase = 0\n\treturn fn({params}) -> int {{\n\t\tacc = base\n{body}\t}}\n}}\nf = mk()\n"
+            elif form == "nested-in-void":
+                body = skel_src(sk, 2, cn, rn)
+                s = f"outer = fn() {{\n\tf = fn({params}) -> int {{\n\t\tacc = 0\n{body}\t}}\n"
+                for vec in itertools.product(("true", "false"), repeat=n):
+                    s += f"\tr = f({', '.join(vec)})\n\tprint r\n"
+                return s + "}\nouter()\n", 0
+            else:
+                raise ValueError(form)
             for vec in itertools.product(("true", "false"), repeat=n):
-                s += f"r = f({', '.join(vec)})\nprint r\n"
+                s += f"r = {callee}({', '.join(vec)})\nprint r\n"
             return s, 0
         raise ValueError(case)
 
